@@ -359,7 +359,9 @@ func vDrainPlanBatch(p Plan, max int) ([]KVPair, error) {
 // except at most one key beyond its end, point plans never open a cursor, the empty plan
 // touches nothing.
 func VH_C02_L3(kind, n, B, mode int) {
-	alpha := "ab"
+	// all 256 byte values (0x00 and 0xff included) for stored keys and region boundaries;
+	// key length <= 1 + n/3 keeps the number of orderings small
+	alpha := ""
 	st := vSymStore(n, 0, 2, 1, 1, alpha, "xy")
 	PlanBatchSize = B
 	p := vSymRegionPlan(kind, st, 2, alpha)
